@@ -157,6 +157,8 @@ type Source struct {
 	Masks   []Mask      // per call: bit d set when deviation d would differ from the default
 	FailAt  int         // call index at which the sticky fault starts (-1 = never)
 	FailDat bool        // the failing call also delivers its data
+	FailErr error       // the error of the fault (nil = ErrInjected)
+	Stream  io.Reader   // when set, Reads are served by this reader (no script, no fault): for data too large to hold
 	Calls   int
 
 	pos     int
@@ -193,8 +195,15 @@ func (s *Source) Read(p []byte) (int, error) {
 	}
 	idx := s.Calls
 	s.Calls++
+	if s.Stream != nil {
+		return s.Stream.Read(p)
+	}
+	ferr := s.FailErr
+	if ferr == nil {
+		ferr = ErrInjected
+	}
 	if s.failed {
-		return 0, ErrInjected
+		return 0, ferr
 	}
 	rem := len(s.Data) - s.pos
 	n := len(p)
@@ -209,9 +218,9 @@ func (s *Source) Read(p []byte) (int, error) {
 		if s.FailDat {
 			copy(p, s.Data[s.pos:s.pos+n])
 			s.pos += n
-			return n, ErrInjected
+			return n, ferr
 		}
-		return 0, ErrInjected
+		return 0, ferr
 	}
 	if len(p) == 0 {
 		if s.Record {
